@@ -304,3 +304,52 @@ func stringRunInputs(thorough bool, allBytesUpTo int, fn func(tok []byte, k int)
 		}
 	}
 }
+
+// lenientDocs: byte sequences that lenient parsers skip or accept - byte order marks, Unicode spaces and line
+// separators, comments, vertical tab / form feed / NUL / SUB, a plus sign - at every position where whitespace may
+// stand: at index 0, after and before JSON whitespace, after a minus sign, after the value, between the tokens of
+// containers.  RFC 8259 allows none of them anywhere outside strings.
+var lenientSeqs = [][]byte{
+	{0xef, 0xbb, 0xbf}, {0xef, 0xbb, 0xbf, 0xef, 0xbb, 0xbf}, {0xef, 0xbb}, {0xfe, 0xff}, {0xff, 0xfe}, {0xc2, 0xa0}, {0xc2, 0x85},
+	{0xe2, 0x80, 0xa8}, {0xe2, 0x80, 0xa9}, {0xe3, 0x80, 0x80}, {0xe2, 0x80, 0x8b}, {0xe1, 0x9a, 0x80},
+	[]byte("//c\n"), []byte("/**/"), []byte("/* c */"), []byte("#c\n"), []byte(`\n`), []byte(` `), {0x0b}, {0x0c}, {0x00}, {0x1a}, {'+'}, {';'},
+}
+
+func lenientDocs() [][]byte {
+	var out [][]byte
+	cat := func(parts ...[]byte) {
+		var d []byte
+		for _, p := range parts {
+			d = append(d, p...)
+		}
+		out = append(out, d)
+	}
+	s := func(x string) []byte { return []byte(x) }
+	for _, l := range lenientSeqs {
+		for _, v := range []string{"12", "-5", "0", "1.5e3", `"s"`, "true", "false", "null", "[1]", `{"a":1}`} {
+			cat(l, s(v))
+			cat(s(" "), l, s(v))
+			cat(l, s(" "), s(v))
+			cat(s("\n"), l, s("\t"), s(v), s(" "))
+			cat(s(v), l)
+			cat(s(v), s(" "), l)
+			cat(s(v), l, s("  "))
+			if v[0] == '-' {
+				cat(s("-"), l, s(v[1:]))
+			}
+		}
+		cat(s("["), l, s("1]"))
+		cat(s("[1"), l, s("]"))
+		cat(s("[1,"), l, s("2]"))
+		cat(s("[1"), l, s(",2]"))
+		cat(s("["), l, s("]"))
+		cat(s("{"), l, s(`"a":1}`))
+		cat(s(`{"a"`), l, s(`:1}`))
+		cat(s(`{"a":`), l, s(`1}`))
+		cat(s(`{"a":1`), l, s(`}`))
+		cat(s(`{"a":1,`), l, s(`"b":2}`))
+		cat(s("{"), l, s("}"))
+		cat(s(`[[`), l, s(`],{"k":[`), l, s(`]}]`))
+	}
+	return out
+}
